@@ -153,17 +153,35 @@ func tail(s string, n int) string {
 	return s
 }
 
-func tierBudget(tier string) int {
+// tierBudget returns the wall-clock budget per shard in seconds and the number of cases per shard (0 = unlimited).
+//
+// Default mode (no VERIF_BUDGET_S): every one of the 16 shards runs a FIXED number of cases taken from budgets.json
+// (calibrated on the 16-core sandbox to about 40 s for the quick and about 10 min for the thorough tier), under a generous
+// wall-clock cap. Since a case is a pure function of (VERIF_SEED, property, shard, index), the explored set is then
+// the same on every machine - what was validated on the unchanged tree is exactly what a later run explores.
+// With VERIF_BUDGET_S set the run is time-bounded instead (mutant runs, sweeps).
+func tierBudget(prop, tier string) (seconds int, runsPerShard int) {
 	if v := os.Getenv("VERIF_BUDGET_S"); v != "" {
 		if n, err := strconv.Atoi(v); err == nil {
-			return n
+			return n, 0
 		}
 	}
+	nominal := 40
 	if tier == "thorough" {
-		return 1200
+		nominal = 600
 	}
-	return 40
+	if b, err := os.ReadFile(filepath.Join(verifDir(), "budgets.json")); err == nil {
+		var m map[string]map[string]int
+		if json.Unmarshal(b, &m) == nil && m[prop][tier] > 0 {
+			return nominal * 4, m[prop][tier]
+		}
+	}
+	return nominal, 0
 }
+
+const shards = 16
+
+var budgetMode string
 
 func checkMain(prop, tier string) int {
 	start := time.Now()
@@ -186,7 +204,15 @@ func checkMain(prop, tier string) int {
 			nw = n
 		}
 	}
-	budget := tierBudget(tier)
+	budget, runsPerShard := tierBudget(prop, tier)
+	budgetMode = fmt.Sprintf("time budget %d s per shard", budget)
+	if runsPerShard > 0 {
+		budgetMode = fmt.Sprintf("fixed %d cases per shard x %d shards (wall-clock cap %d s per shard)", runsPerShard, shards, budget)
+	}
+	maxRuns := "1073741824"
+	if runsPerShard > 0 {
+		maxRuns = strconv.Itoa(runsPerShard)
+	}
 	outDir := filepath.Join(b.Scratch, "out")
 	os.MkdirAll(outDir, 0o755)
 	known := loadKnown()
@@ -197,15 +223,25 @@ func checkMain(prop, tier string) int {
 		}
 	}
 	var wg sync.WaitGroup
+	par := nw // processes running at a time
+	if os.Getenv("VERIF_WORKERS") == "" {
+		nw = shards // the unit of work is the shard: always 16, whatever the machine
+		if par > shards {
+			par = shards
+		}
+	}
+	sem := make(chan struct{}, par)
 	outs := make([]string, nw)
 	errs := make([]error, nw)
 	for i := 0; i < nw; i++ {
 		wg.Add(1)
 		go func(i int) {
 			defer wg.Done()
+			sem <- struct{}{}
+			defer func() { <-sem }()
 			outs[i], errs[i] = runWorkerCmd(b.Bin, "TestWorker", time.Duration(budget)*time.Second*3+10*time.Minute,
 				"VERIF_PROP="+prop, "VERIF_TIER="+tier, "VERIF_SEED="+strconv.FormatInt(seed, 10),
-				"VERIF_SHARD="+strconv.Itoa(i), "VERIF_BUDGET_S="+strconv.Itoa(budget), "VERIF_OUT="+outDir,
+				"VERIF_SHARD="+strconv.Itoa(i), "VERIF_BUDGET_S="+strconv.Itoa(budget), "VERIF_MAXRUNS="+maxRuns, "VERIF_OUT="+outDir,
 				"VERIF_KNOWN="+strings.Join(openSigs, "\x1f"))
 		}(i)
 	}
